@@ -66,6 +66,19 @@ Probe ==
                   \E cs \in SeqsOf(Vals, Dkg1Draws(sh[1], sh[2])) :
                      ActDkg1Z(<<"r1s", 1>>, <<"r1p", 1>>, 1, sh[1], sh[2], z0, a0, cs, zk, k)
              /\ pc' = <<"done", 0>>
+          \* refresh_dkg_part1: t-1 coefficients, then the proof nonce (random_nonzero)
+          \/ /\ pr = "rdkg1"
+             /\ \E sh \in Shapes, zk \in 0..MaxZeros, k \in NZVals :
+                  \E cs \in SeqsOf(Vals, Dkg1Draws(sh[1], sh[2])) :
+                     \E o \in Outcomes(ro, "dkg1", [id |-> 1, n |-> sh[1], t |-> sh[2], a0 |-> 0, coeffs |-> cs, k |-> k, refresh |-> TRUE]) :
+                        /\ ro' = o[1]
+                        /\ Finish("dkg1", o[2], << >>,
+                                  [op |-> "dkg1", out_sec |-> <<"r1s", 1>>, out_pkg |-> <<"r1p", 1>>, id |-> 1, n |-> sh[1], t |-> sh[2],
+                                   refresh |-> TRUE,
+                                   rng |-> IF ParamErr(sh[1], sh[2]) # "none" THEN << >> ELSE Draws2(cs) \o Zeros(zk) \o <<Draw2(k)>>,
+                                   expect |-> IF o[2].ok THEN [ok |-> TRUE, coeffs |-> o[2].coeffs, commit |-> o[2].commit, R |-> o[2].R, mu |-> o[2].mu]
+                                              ELSE ErrProj(o[2])])
+             /\ pc' = <<"done", 0>>
           \/ /\ pr = "single"
              /\ ActMkSk(<<"sk", 0>>, CHOOSE v \in NZVals : TRUE)
              /\ pc' = <<"single2", 0>>
